@@ -1,1 +1,128 @@
-// contract harnesses for trust-lsp/src/handlers_lsp_utils
+// Contract harnesses for crates/trust-lsp/src/handlers/lsp_utils.rs  (C14)
+//
+// Oracle: the editor's view. An LSP position is (line, UTF-16 code units since the line start);
+// lines end at '\n'. For a text given as a sequence of chars, the boundary before char k has
+//   line(k) = number of '\n' among chars[..k]
+//   col(k)  = sum of len_utf16 over the chars after the last '\n' in chars[..k]
+//   byte(k) = sum of len_utf8 over chars[..k]
+// The contracts say: offset_to_line_col(byte(k)) == (line(k), col(k)), position_to_offset of
+// (line(k), col(k)) == byte(k)  (round trip = identity on character boundaries), a column past the
+// end of its line clamps to the line end, a line past the last line is None.
+// Bound: texts of K = 3 chars, each char symbolic over the FULL scalar-value domain (ASCII, 2/3/4-byte,
+// astral plane, '\r', '\n' are all covered by the solver, not by sampling).
+
+use super::*;
+use tower_lsp::lsp_types::Position;
+
+pub(super) const K: usize = 3;
+
+pub(super) fn text_of(chars: &[char; K], n: usize) -> String {
+    let mut s = String::new();
+    let mut i = 0;
+    while i < n {
+        s.push(chars[i]);
+        i += 1;
+    }
+    s
+}
+
+pub(super) fn ref_line(chars: &[char; K], k: usize) -> u32 {
+    let mut line = 0;
+    let mut i = 0;
+    while i < k {
+        if chars[i] == '\n' {
+            line += 1;
+        }
+        i += 1;
+    }
+    line
+}
+
+pub(super) fn ref_col16(chars: &[char; K], k: usize) -> u32 {
+    let mut col = 0;
+    let mut i = 0;
+    while i < k {
+        if chars[i] == '\n' {
+            col = 0;
+        } else {
+            col += chars[i].len_utf16() as u32;
+        }
+        i += 1;
+    }
+    col
+}
+
+pub(super) fn ref_byte(chars: &[char; K], k: usize) -> u32 {
+    let mut b = 0;
+    let mut i = 0;
+    while i < k {
+        b += chars[i].len_utf8() as u32;
+        i += 1;
+    }
+    b
+}
+
+pub(super) fn any_text() -> ([char; K], usize) {
+    let chars: [char; K] = [kani::any(), kani::any(), kani::any()];
+    let n: usize = kani::any();
+    kani::assume(n <= K);
+    (chars, n)
+}
+
+// @unit id=lsp.offset_to_line_col props=C14 tier=quick kind=bounded bound="texts of <= 3 chars, each over the full char domain; every boundary offset" timeout=1800 fn=offset_to_line_col,offset_to_position
+#[kani::proof]
+#[kani::unwind(14)]
+fn lsp_offset_to_line_col() {
+    let (chars, n) = any_text();
+    let s = text_of(&chars, n);
+    let k: usize = kani::any();
+    kani::assume(k <= n);
+    let (line, col) = offset_to_line_col(&s, ref_byte(&chars, k));
+    kani::cover!(k == 3 && chars[0].len_utf16() == 2 && chars[1] != '\n' && chars[0] != '\n');
+    kani::cover!(k == 3 && chars[1] == '\n');
+    assert!(line == ref_line(&chars, k), "line = number of newlines before the offset");
+    assert!(col == ref_col16(&chars, k), "character = UTF-16 code units since the line start");
+}
+
+// @unit id=lsp.roundtrip props=C14 tier=quick kind=bounded bound="texts of <= 3 chars, each over the full char domain; every boundary offset" timeout=1800 fn=position_to_offset,offset_to_position,offset_to_line_col
+#[kani::proof]
+#[kani::unwind(14)]
+fn lsp_roundtrip() {
+    let (chars, n) = any_text();
+    let s = text_of(&chars, n);
+    let k: usize = kani::any();
+    kani::assume(k <= n);
+    let o = ref_byte(&chars, k);
+    let p = offset_to_position(&s, o);
+    let back = position_to_offset(&s, p);
+    kani::cover!(k == 2 && chars[0].len_utf16() == 2);
+    kani::cover!(k == 3 && chars[0] == '\n' && chars[1].len_utf8() == 3);
+    assert!(back == Some(o), "offset -> position -> offset is the identity on character boundaries");
+}
+
+// @unit id=lsp.position_to_offset props=C14 tier=quick kind=bounded bound="texts of <= 3 chars, each over the full char domain; every editor position (boundary, past line end, past last line)" timeout=1800 fn=position_to_offset
+#[kani::proof]
+#[kani::unwind(14)]
+fn lsp_position_to_offset() {
+    let (chars, n) = any_text();
+    let s = text_of(&chars, n);
+    // (a) the position of every boundary maps to that boundary's byte offset
+    let k: usize = kani::any();
+    kani::assume(k <= n);
+    let p = Position { line: ref_line(&chars, k), character: ref_col16(&chars, k) };
+    assert!(position_to_offset(&s, p) == Some(ref_byte(&chars, k)), "an editor position denotes the byte offset of the same character boundary");
+    // (b) a column past the end of its line clamps to the end of that line
+    let extra: u32 = kani::any();
+    kani::assume(extra >= 1 && extra <= 1000);
+    let at_line_end = k == n || chars[k] == '\n';
+    if at_line_end {
+        let q = Position { line: p.line, character: p.character + extra };
+        assert!(position_to_offset(&s, q) == Some(ref_byte(&chars, k)), "a column past the line end clamps to the line end");
+    }
+    // (c) a line past the last line does not exist
+    let last_line = ref_line(&chars, n);
+    let beyond = Position { line: last_line + extra, character: 0 };
+    assert!(position_to_offset(&s, beyond).is_none(), "a line beyond the last line has no offset");
+    kani::cover!(at_line_end && k < n);
+    kani::cover!(k == 1 && chars[0].len_utf16() == 2 && n == 3);
+}
